@@ -654,3 +654,73 @@ def rule_V4(run: Run, prog: Program) -> int:
     if n == 0:
         run.add("E4.V4", fn.short, "index sets of the transposed tensor", UNDECIDED, "no construction of the index sets from the permutation recognised", fn.loc)
     return n
+
+
+def rule_V1b(run: Run, prog: Program) -> int:
+    run.rule(
+        "E4.V1b",
+        "index sets copied VERBATIM (absolute axis positions) from self onto a tensor built from `self.array +/- other`: when the other operand "
+        "has more axes, broadcasting prepends axes and the copied positions point at the wrong axes; index sets of such results must be "
+        "counted from the end (relative to the tensor part)",
+    )
+    tensor = prog.cls("Tensor")
+    n = 0
+
+    def verbatim_sites(fn: FunctionInfo) -> list[tuple[ast.stmt, str]]:
+        """(statement, array-expression-name) where a Tensor built from a name gets self's index sets verbatim"""
+        ps = fn.params()
+        if not ps:
+            return []
+        selfn = ps[0].arg
+        built: dict[str, ast.AST] = {}
+        out = []
+        for st in walk_no_nested(fn.node):
+            if isinstance(st, ast.Assign) and len(st.targets) == 1 and isinstance(st.targets[0], ast.Name) and isinstance(st.value, ast.Call):
+                t = prog.resolve_expr_name(fn.module, st.value.func, fn)
+                if t == tensor.qualname and st.value.args:
+                    built[st.targets[0].id] = st.value.args[0]
+        for st in walk_no_nested(fn.node):
+            if isinstance(st, ast.Assign):
+                for t in st.targets:
+                    if isinstance(t, ast.Attribute) and t.attr in ("_covariant_indices", "_contravariant_indices") and isinstance(t.value, ast.Name) \
+                            and t.value.id in built:
+                        v = st.value
+                        if isinstance(v, ast.Call) and getattr(v.func, "id", "") in ("set", "frozenset", "copy") and len(v.args) == 1:
+                            v = v.args[0]
+                        if isinstance(v, ast.Call) and isinstance(v.func, ast.Attribute) and v.func.attr == "copy":
+                            v = v.func.value
+                        if isinstance(v, ast.Attribute) and v.attr == t.attr and isinstance(v.value, ast.Name) and v.value.id == selfn:
+                            out.append((st, built[t.value.id]))
+        return out
+
+    def is_broadcast_expr(e: ast.AST, fn: FunctionInfo) -> bool:
+        ps = fn.params()
+        selfn = ps[0].arg if ps else "self"
+        return (isinstance(e, ast.BinOp) and isinstance(e.op, (ast.Add, ast.Sub)) and any(
+            isinstance(x, ast.Attribute) and x.attr == "array" and isinstance(x.value, ast.Name) and x.value.id == selfn for x in ast.walk(e)))
+
+    for fn in prog.package_functions():
+        if fn.cls is None or not prog.is_subclass(fn.cls, tensor) or fn.parent is not None:
+            continue
+        for st, arr in verbatim_sites(fn):
+            n += 1
+            loc = f"{fn.module.rel}:{st.lineno}"
+            label = norm_stmt(st)
+            hit = None
+            if is_broadcast_expr(arr, fn):
+                hit = fn
+            elif isinstance(arr, ast.Name) and arr.id in fn.param_names():
+                # helper: who calls it with self.array +/- other ?
+                for caller in prog.package_functions():
+                    if caller.cls is None or not prog.is_subclass(caller.cls, tensor):
+                        continue
+                    for c in walk_no_nested(caller.node):
+                        if isinstance(c, ast.Call) and isinstance(c.func, ast.Attribute) and c.func.attr == fn.name and c.args and is_broadcast_expr(c.args[0], caller):
+                            hit = caller
+            if hit is not None:
+                run.add("E4.V1b", fn.short, label, VIOLATION,
+                        f"`{label}` copies absolute axis positions onto the result of `self.array +/- other` (reached from {hit.short}): if `other` has "
+                        f"more axes than the tensor, broadcasting prepends axes and the covariant/contravariant types land on the wrong axes", loc)
+            else:
+                run.add("E4.V1b", fn.short, label, PROVEN, "result has the same axes as self (no broadcasting operand)", loc)
+    return n
